@@ -29,6 +29,7 @@ import DeapModel.Lemmas.C10Rounded
 import DeapModel.Lemmas.C10Fl
 import DeapModel.Lemmas.C10FlRange
 import DeapModel.Lemmas.C10Es
+import DeapModel.Lemmas.C10Gen
 import Mathlib.Analysis.SpecialFunctions.Pow.Real
 import Mathlib.Tactic.Linarith
 import Mathlib.Tactic.NormNum
